@@ -156,6 +156,9 @@ def run(ctx):
             cuts = sorted(ctx.rng.randint(0, N2) for _ in range(K - 1))
             m = [b - a for a, b in zip([0] + cuts, cuts + [N2])]
         sessions.append(dict(sid=sid, kind=k, n=n, m=m))
+    # count vectors aligned to K categories (zeros included) with K = N: the length of the vector is NOT the number of distinct elements
+    for j, n in enumerate(([2, 2, 0, 0], [3, 1, 0, 0], [1, 1, 1, 1], [2, 0, 0, 3, 0, 1], [0, 0, 5, 0, 0], [2, 1, 1, 0, 1], [4, 0, 0, 0], [2, 2, 1, 0, 0], [3, 0, 2, 1, 0, 0])):
+        sessions.append(dict(sid=500 + j, kind="var", n=n, m=[]))
     out = estim.evaluate(ctx, sessions, invariants=("PcInUnit",))   # the identities overflow 32-bit integers beyond the exhaustive bounds
     for s in sessions:
         ctx.case(dict(kind="sampled:" + s["kind"], n=s["n"], m=s["m"], spec=out[s["sid"]]), nontrivial=True)
